@@ -390,7 +390,8 @@ def check_unreadable_target(out, case):
         os.symlink("../closed/inside", base + "/c/shut")
         os.chmod(base + "/closed", 0)
         os.chmod(base + "/c/secret.sh", 0)
-        cols = ["name", "path", "abspath", "absdir", "size", "is_shebang", "line_count", "sha1", "contains('needle')", "is_text", "is_binary"]
+        cols = ["name", "path", "abspath", "absdir", "size", "is_shebang", "line_count", "sha1", "contains('needle')", "is_text", "is_binary",
+                "sha256", "sha512", "sha3"]   # (every digest: each has its own reader)
         q = "select %s from c%s%s into list" % (", ".join(cols), (" " + case["mode"]) if case["mode"] else "", case["tail"])
         res = runner.run([q], cwd=base, nobody=True)
         out.evals += 1
@@ -411,7 +412,8 @@ def check_unreadable_target(out, case):
                 out.add("C17/unreadable-target/name-column-changed", query=q, name=n, path=r[1], abspath=r[2], absdir=r[3],
                         want_abspath=real + "/" + n)
             if n == "g.txt":
-                if r[5] != "true" or r[6] != "2" or r[8] != "true" or len(r[7]) != 40 or r[9] != "true" or r[10] != "false":
+                if r[5] != "true" or r[6] != "2" or r[8] != "true" or len(r[7]) != 40 or r[9] != "true" or r[10] != "false" or \
+                        [len(c) for c in r[11:14]] != [64, 128, 128]:
                     out.add("C17/unreadable-target/readable-file-changed", query=q, row=list(r))
             elif any(c != "" for c in r[5:]):
                 out.add("C17/unreadable-target/content-cell-not-empty", query=q, name=n, cells=dict(zip(cols[5:], r[5:])))
